@@ -10,6 +10,7 @@ import SvgVerif.Model.Color
 import SvgVerif.Model.Viewbox
 import SvgVerif.Model.Seg
 import SvgVerif.Model.ArcParam
+import SvgVerif.Model.BBox
 open Svg Svg.Wire
 
 def fmtMat (m : Mat Float) : String :=
@@ -183,6 +184,12 @@ def step (line : String) : String :=
   | ["seg.points", sg, ts] =>
       (match segOfStr sg with
        | some s => "OK " ++ " ".intercalate ((fl ts).map fun t => fmtPt (s.point t))
+       | none => "bad-op")
+  | ["seg.bbox", sg] =>
+      (match segOfStr sg with
+       | some s => (match s.bbox Float.atan with
+          | some b => "OK " ++ " ".intercalate [hexOfFloat b.xmin, hexOfFloat b.ymin, hexOfFloat b.xmax, hexOfFloat b.ymax]
+          | none => "OK none")
        | none => "bad-op")
   | ["seg.reverse", sg] =>
       (match segOfStr sg with
